@@ -260,6 +260,25 @@ static void do_tf(const kv& m) {
     free(buf);
 }
 
+// ------------------------------------------------------------------------------------ taproot commitment
+static void do_tapcommit(const kv& m) {
+    // control=<hex> program=<hex> script=<hex>: TaprootCommitmentEnv stepped to the end, m_k after every step
+    std::string id = get(m, "id");
+    bytes control = unhex(get(m, "control")), program = unhex(get(m, "program")), scr = unhex(get(m, "script"));
+    if (control.size() < 33 || program.size() != 32) { fprintf(OUT, "R %s badsize\n", id.c_str()); return; }
+    uint256 leaf;
+    TaprootCommitmentEnv tce(control, program, CScript(scr.begin(), scr.end()), &leaf);
+    std::string ks = HexStr(tce.m_k);
+    const char* res = "processing";
+    for (int guard = 0; guard < 200; guard++) {
+        auto st = tce.Iterate();
+        if (st == TaprootCommitmentEnv::State::Processing || st == TaprootCommitmentEnv::State::Tweaked) { ks += "," + HexStr(tce.m_k); continue; }
+        res = st == TaprootCommitmentEnv::State::Done ? "done" : "failed";
+        break;
+    }
+    fprintf(OUT, "R %s %s leaf=%s k=%s\n", id.c_str(), res, HexStr(leaf).c_str(), ks.c_str());
+}
+
 // ------------------------------------------------------------------------------------ transactions
 static std::string tx_fields(const CTransaction& tx) {
     std::string s = strprintf("ver=%d lock=%u", tx.nVersion, tx.nLockTime);
@@ -311,6 +330,7 @@ static void run_case(const std::string& line) {
     else if (kind == "script") do_script(m);
     else if (kind == "btcc") do_btcc(m);
     else if (kind == "tx") do_tx(m);
+    else if (kind == "tapcommit") do_tapcommit(m);
     else if (kind == "inl") do_inl(m);
     else if (kind == "tf") do_tf(m);
     else fprintf(OUT, "R %s unknownkind\n", get(m, "id").c_str());
